@@ -255,8 +255,8 @@ def run_C07(rep, tier, rng):
     sub = texts[: (200 if tier == "quick" else 2000)]
     outs = kv.run_impl("generate", [kv.hexs(t) for t in sub])
     for t, o in zip(sub, outs):
-        if o.startswith("(panic") or o.startswith("(died"):
-            rep.violation("generate panicked/aborted (public entry point, child process)", {"source": t[:4000], "impl": o[:300]})
+        if o.startswith("(panic") or o.startswith("(died") or o.startswith("(timeout"):
+            rep.violation("generate panicked/aborted/did not return (public entry point, child process)", {"source": t[:4000], "impl": o[:300]})
     report_disagreements(rep, dis, "stages (outcome class and every intermediate value)", "C07_no_panic / C07_terminates")
     return {"evaluations": len(texts) + len(sub), "distinct_nontrivial": kv.distinct_count([t for t in texts if len(t) > 3]),
             "rule": "valid files (all fieldset shapes, variant-less enums, zero terminals, unproductive/unreachable nonterminals, multi-byte text) + mutated and raw malformed texts + size-bound files; every stage under catch_unwind, public generate() in a child process; non-trivial = longer than 3 chars",
